@@ -227,3 +227,12 @@ add("src_write", ["C04", "C18"], ["tu/source_write.c"], "h_source_write", unwind
 add("dump_filter", ["C01", "C18"], ["tu/dump_step.c"], "h_dump_filter", unwind=5, timeout=300,
     strength="B: mtbl_dump's dump() over <= 3 symbolic entries (keys/values <= 2 bytes), any prefixes <= 2 bytes, any minimum lengths, silent/hex flags",
     functions=["dump (src/mtbl_dump.c)", "print_string", "print_hex_string"], assumptions=["reader/iterator stubbed; stdout functions count lines (escaping/hex formatting not checked)"])
+# ---------------------------------------------------------------- libmy/vector.h growth (the part cut off elsewhere, R12)
+add("vec_step", ["C01", "C09"], ["tu/vector_step.c"], "h_vector_step", unwind=8, timeout=600,
+    strength="B: one vector operation (append / reserve+advance / add / clip / reset / detach) from an arbitrary state with capacity <= 4, <= 6 new bytes (several doublings)",
+    functions=["ubuf_append", "ubuf_reserve", "ubuf_advance", "ubuf_add", "ubuf_clip", "ubuf_reset", "ubuf_detach", "ubuf_destroy (libmy/vector.h)"],
+    assumptions=["realloc: CBMC's built-in model (ISO C: content preserved up to the smaller size)"])
+# ---------------------------------------------------------------- thorough-tier variants with larger caps
+add("wr_add_step_k8", ["C08", "C10", "C09", "C01", "C02", "C12", "C20"], ["tu/writer_step.c", "$REPO/mtbl/varint.c"], "h_writer_add_step",
+    unwind=20, defines=["VG_KMAX=8"], strength="B: one mtbl_writer_add from an arbitrary writer state (all histories); key length <= 8", timeout=3000, slice=3, tier="thorough",
+    functions=WR_STEP_FUNCS, assumptions=WR_STEP_ASSUME, replay="c08")
